@@ -8,6 +8,7 @@ import (
 	"fmt"
 	"io"
 	"net"
+	"strconv"
 	"strings"
 	"sync"
 	"time"
@@ -26,6 +27,8 @@ type C10ServerCase struct {
 	Names   string      `json:"names"`
 	Inject  string      `json:"inject"`   // plaintext put behind the STARTTLS command
 	SameSeg bool        `json:"same_seg"` // in the same segment as STARTTLS / in a segment of its own before the handshake
+	// SlowAbort: the backend needs 20 virtual seconds to return from a delivery whose reader failed (a rollback)
+	SlowAbort bool `json:"slow_abort,omitempty"`
 }
 
 // c10Probes: what is tried inside the TLS session (names from Alphabet).
@@ -42,6 +45,10 @@ func evalC10Server(c C10ServerCase) (*h.Finding, string) {
 	// the STARTTLS command with the injected plaintext behind it
 	st := ref.Cmd{Name: "STARTTLS+" + c.Inject, Op: "STARTTLS", Steps: [][]byte{line("STARTTLS")}}
 	opts := &lockOpts{}
+	if c.SlowAbort {
+		opts.Backend = func(be *h.Backend) { be.SlowAbort = 20 * time.Second }
+		opts.Patience = 30 * time.Second
+	}
 	if c.Inject != "" {
 		if c.SameSeg {
 			st.Steps = [][]byte{append(line("STARTTLS"), c.Inject...)}
@@ -163,6 +170,10 @@ func (s *fakeTLSServer) serve(conn net.Conn, behavior string) {
 				// inside TLS this server only speaks HELO: the client must end up with NO extensions,
 				// not with the ones it heard in plaintext
 				io.WriteString(conn, "502 5.5.1 EHLO not implemented here\r\n")
+			case inTLS && strings.HasPrefix(behavior, "tls-ehlo-code:"):
+				// inside TLS the EHLO is refused with some other code: whatever the client does next, it has no
+				// capability list for this session
+				io.WriteString(conn, strings.TrimPrefix(behavior, "tls-ehlo-code:")+" 5.0.0 Duplicate HELO/EHLO\r\n")
 			case inTLS && behavior == "tls-ehlo-noauth":
 				// extensions, but no AUTH line at all inside TLS
 				io.WriteString(conn, "250-fake.example\r\n250-8BITMIME\r\n250 SIZE 4242\r\n")
@@ -204,7 +215,12 @@ func (s *fakeTLSServer) serve(conn net.Conn, behavior string) {
 			if behavior == "220-untrusted" {
 				cfg = h.UntrustedServerTLSConfig()
 			}
-			if behavior == "220-inject" {
+			if strings.HasPrefix(behavior, "220-inject-long:") {
+				// a long run of octets WITHOUT a line end right behind the 220, in the same write: not even their
+				// number may matter inside the TLS session
+				n, _ := strconv.Atoi(strings.TrimPrefix(behavior, "220-inject-long:"))
+				io.WriteString(conn, "220 2.0.0 ready\r\n"+strings.Repeat("j", n))
+			} else if behavior == "220-inject" {
 				// injected plaintext replies right behind the 220, in the same write
 				io.WriteString(conn, "220 2.0.0 ready\r\n250-fake.example\r\n250-AUTH INJECTED\r\n250 SIZE 9999\r\n")
 			} else {
@@ -371,6 +387,19 @@ func evalC10Client(c C10ClientCase) (f *h.Finding) {
 		}
 		return nil
 	}
+	if strings.HasPrefix(c.Behavior, "tls-ehlo-code:") {
+		joined := strings.Join(srv.tlsLines, "")
+		if haveClient && (authCaps != "" || sizeSeen != 0) {
+			return h.F("c10-plaintext-capabilities-trusted", "%s: inside TLS the EHLO was refused, yet the client reports AUTH %q and SIZE %d (heard in plaintext)", desc, authCaps, sizeSeen)
+		}
+		if strings.Contains(joined, "AUTH ") || strings.Contains(joined, "BODY=") || strings.Contains(joined, "SIZE=") {
+			return h.F("c10-plaintext-capabilities-trusted", "%s: the client used extensions it only heard about in plaintext: %q", desc, srv.tlsLines)
+		}
+		if c.Auth && callErr == nil {
+			return h.F("c10-plaintext-capabilities-trusted", "%s: AUTH was requested, the TLS session offers none, but the call chain returned nil", desc)
+		}
+		return nil
+	}
 	if c.Behavior == "tls-ehlo-refused" || c.Behavior == "tls-ehlo-bare" {
 		// the upgrade works, the renegotiated hello falls back to HELO: no capability may survive
 		joined := strings.Join(srv.tlsLines, "")
@@ -388,7 +417,11 @@ func evalC10Client(c C10ClientCase) (f *h.Finding) {
 		}
 		return nil
 	}
-	good := c.Behavior == "good" || c.Behavior == "220-inject"
+	injected := c.Behavior == "220-inject" || strings.HasPrefix(c.Behavior, "220-inject-long:")
+	if injected && callErr != nil && len(srv.tlsLines) == 0 {
+		return nil // the client noticed the extra plaintext and gave up before it said anything inside TLS: fine
+	}
+	good := c.Behavior == "good" || injected
 	if !good {
 		if callErr == nil {
 			return h.F("c10-no-error", "%s: the upgrade cannot have worked but the call chain returned nil", desc)
@@ -430,7 +463,7 @@ func C10(tier string) int {
 	injects := []string{"", "MAIL FROM:<okinject@x.example>\r\n", "RCPT TO:<okinject@x.example>\r\n", "EHLO evil.example\r\nMAIL FROM:<okinject@x.example>\r\nRCPT TO:<okinject@y.example>\r\n", "RSET\r\nNOOP\r\n", "BDAT 5 LAST\r\ninject",
 		// no line break at all, just under the line limit: not even the line COUNTER may cross into the TLS session
 		strings.Repeat("i", 1985)}
-	run.Rule = fmt.Sprintf("SERVER: phase 1 - the C03 breadth-first search (alphabet without STARTTLS) collects one shortest history for EVERY reachable pre-STARTTLS state (greeted, authenticated, mid-transaction, mid-BDAT, after errors ...) of %d configuration(s); phase 2 - for every such state x injected plaintext %q x {same segment as STARTTLS, own segment before the ClientHello}: STARTTLS, real TLS handshake, then %d probe commands inside TLS (MAIL/RCPT/DATA/BDAT/AUTH before the new EHLO, EHLO, STARTTLS again, AUTH twice, a full transaction), every step compared with the reference model (old session: Logout and no Reset; nothing remembered; NewSession of the new EHLO sees TLS and the new name; AUTH state gone; envelope gone) plus: no injected command is ever executed once TLS is up. CLIENT: entry points {NewClientStartTLS (in-memory), DialStartTLS, SendMail (loopback)} x scripted server behaviours {good, no STARTTLS keyword, EHLO refused -> HELO fallback, 454, 220 then garbage, 220 with an untrusted certificate, 220 with injected plaintext replies behind it then a good handshake, good handshake after which EHLO is refused and only HELO accepted, good handshake after which EHLO is answered by a bare 250 line} x {with, without SASL client}: raw octets before the handshake contain only EHLO/HELO/STARTTLS/QUIT, the first line inside TLS is EHLO and ITS capability list is used, every bad case returns an error. states = pre-STARTTLS states; transitions = conversations.", len(cfgs), injects, len(c10Probes))
+	run.Rule = fmt.Sprintf("SERVER: phase 1 - the C03 breadth-first search (alphabet without STARTTLS) collects one shortest history for EVERY reachable pre-STARTTLS state (greeted, authenticated, mid-transaction, mid-BDAT, after errors ...) of %d configuration(s); phase 2 - for every such state x injected plaintext %q x {same segment as STARTTLS, own segment before the ClientHello}: STARTTLS, real TLS handshake, then %d probe commands inside TLS (MAIL/RCPT/DATA/BDAT/AUTH before the new EHLO, EHLO, STARTTLS again, AUTH twice, a full transaction), every step compared with the reference model (old session: Logout and no Reset; nothing remembered; NewSession of the new EHLO sees TLS and the new name; AUTH state gone; envelope gone) plus: no injected command is ever executed once TLS is up; every state once more with a backend that needs 20 virtual seconds to abandon an open delivery (the old session is logged out only after its Data call has returned). CLIENT: entry points {NewClientStartTLS (in-memory), DialStartTLS, SendMail (loopback)} x scripted server behaviours {good, no STARTTLS keyword, EHLO refused -> HELO fallback, 454, 220 then garbage, 220 with an untrusted certificate, 220 with injected plaintext replies behind it then a good handshake, good handshake after which EHLO is refused and only HELO accepted, good handshake after which EHLO is answered by a bare 250 line, 220 followed in the same write by 1..1997 octets without a line end (not even their NUMBER may matter inside TLS: the upgrade works, or the client gives up before it says anything inside TLS), good handshake after which EHLO is answered 421/451/501/503/504/550/554 (no capability heard in plaintext may be reported or used)} x {with, without SASL client}: raw octets before the handshake contain only EHLO/HELO/STARTTLS/QUIT, the first line inside TLS is EHLO and ITS capability list is used, every bad case returns an error. states = pre-STARTTLS states; transitions = conversations.", len(cfgs), injects, len(c10Probes))
 	run.Assumptions = []string{"plaintext put on the wire between the 220 reply and the ClientHello makes the handshake fail (no TLS session exists); what the server does with a failed handshake is not judged", "loopback TCP is used for DialStartTLS/SendMail (they insist on dialling), outside synctest bubbles"}
 	t0 := time.Now()
 	for _, pc := range cfgs {
@@ -459,6 +492,8 @@ func C10(tier string) int {
 					cases = append(cases, C10ServerCase{PC: pc, Hist: hist, Names: histNames(alpha, hist), Inject: inj, SameSeg: same})
 				}
 			}
+			// the same upgrade with a backend that takes 20 s to abandon an open delivery
+			cases = append(cases, C10ServerCase{PC: pc, Hist: hist, Names: histNames(alpha, hist), SameSeg: true, SlowAbort: true})
 		}
 		h.ParallelFor(len(cases), func(i int) {
 			if run.Expired() {
@@ -484,7 +519,9 @@ func C10(tier string) int {
 	// client half
 	var ccases []C10ClientCase
 	for _, e := range []string{"NewClientStartTLS", "DialStartTLS", "SendMail"} {
-		for _, b := range []string{"good", "no-starttls", "ehlo-refused", "454", "220-garbage", "220-untrusted", "220-inject", "tls-ehlo-refused", "tls-ehlo-bare", "tls-ehlo-noauth"} {
+		for _, b := range []string{"good", "no-starttls", "ehlo-refused", "454", "220-garbage", "220-untrusted", "220-inject", "tls-ehlo-refused", "tls-ehlo-bare", "tls-ehlo-noauth",
+			"220-inject-long:1", "220-inject-long:700", "220-inject-long:1900", "220-inject-long:1970", "220-inject-long:1990", "220-inject-long:1997",
+			"tls-ehlo-code:421", "tls-ehlo-code:451", "tls-ehlo-code:501", "tls-ehlo-code:503", "tls-ehlo-code:504", "tls-ehlo-code:550", "tls-ehlo-code:554"} {
 			for _, a := range []bool{false, true} {
 				ccases = append(ccases, C10ClientCase{Entry: e, Behavior: b, Auth: a})
 			}
